@@ -253,6 +253,12 @@ type vWorld struct {
 	pre      *vURL // nil: not configured
 	dcr      bool
 	init     bool
+	sf       string   // configuration: ScopeFilter variant (n none, d drop all, r keep *:read, x append extra:scope)
+	rr       bool     // configuration: RequestRefreshToken
+	ps       []string // scopes_supported of the protected-resource documents of the round
+	as       []string // scopes_supported of the authorization-server documents of the round
+	ts       []string // scope member of the token responses of the round
+	tsAbsent bool     // ... absent
 	nts      bool // configuration: NewTokenSource is set (its source wraps the default one)
 	ntFail   bool // this round: NewTokenSource returns an error
 	u        vURL
@@ -379,6 +385,13 @@ func (w *vWorld) encode() string {
 	if w.fetch == "R" {
 		f = "R|" + w.fState + "|" + w.fIss.tok()
 	}
+	tsTok := scTok(w.ts)
+	if w.tsAbsent {
+		tsTok = "-"
+	}
+	if w.sf == "" {
+		w.sf = "n"
+	}
 	nt := "S"
 	if w.ntFail {
 		nt = "E"
@@ -388,13 +401,13 @@ func (w *vWorld) encode() string {
 		if w.begin {
 			kw = "begin"
 		}
-		return fmt.Sprintf(kw+" st=%d u=%s hm=%s ch=%s hdr=%s prm=%s asm=%s reg=%s tok=%s f=%s sty=%d nt=%s",
+		return fmt.Sprintf(kw+" st=%d u=%s hm=%s ch=%s hdr=%s prm=%s asm=%s reg=%s tok=%s f=%s sty=%d nt=%s ps=%s as=%s ts=%s",
 			w.status, w.u.tok(), bit(w.hm), ch, hdr,
-			w.encodeMap("prm", w.prm), w.encodeMap("asm", w.asm), w.encodeMap("reg", w.reg), tok, f, w.sty, nt)
+			w.encodeMap("prm", w.prm), w.encodeMap("asm", w.asm), w.encodeMap("reg", w.reg), tok, f, w.sty, nt, scTok(w.ps), scTok(w.as), tsTok)
 	}
-	return fmt.Sprintf("auth st=%d cimd=%s pre=%s dcr=%s init=%s u=%s hm=%s ch=%s hdr=%s prm=%s asm=%s reg=%s tok=%s f=%s sty=%d nts=%s nt=%s",
+	return fmt.Sprintf("auth st=%d cimd=%s pre=%s dcr=%s init=%s u=%s hm=%s ch=%s hdr=%s prm=%s asm=%s reg=%s tok=%s f=%s sty=%d nts=%s nt=%s ps=%s as=%s ts=%s sf=%s rr=%s",
 		w.status, bit(w.cimd), pre, bit(w.dcr), bit(w.init), w.u.tok(), bit(w.hm), ch, hdr,
-		w.encodeMap("prm", w.prm), w.encodeMap("asm", w.asm), w.encodeMap("reg", w.reg), tok, f, w.sty, bit(w.nts), nt)
+		w.encodeMap("prm", w.prm), w.encodeMap("asm", w.asm), w.encodeMap("reg", w.reg), tok, f, w.sty, bit(w.nts), nt, scTok(w.ps), scTok(w.as), tsTok, w.sf, bit(w.rr))
 }
 
 func decodeResp(kind, s string) (vResp, error) {
@@ -431,6 +444,34 @@ func decodeResp(kind, s string) (vResp, error) {
 	return vResp{}, fmt.Errorf("bad response token %q", s)
 }
 
+func scTok(l []string) string {
+	if len(l) == 0 {
+		return "."
+	}
+	return strings.Join(l, ",")
+}
+
+func scList(t string) []string {
+	if t == "." || t == "" {
+		return nil
+	}
+	return strings.Split(t, ",")
+}
+
+// canonScopes: sorted, without duplicates (scope SETS are compared).
+func canonScopes(l []string) []string {
+	out := append([]string{}, l...)
+	sort.Strings(out)
+	k := 0
+	for i, x := range out {
+		if i == 0 || x != out[i-1] {
+			out[k] = x
+			k++
+		}
+	}
+	return out[:k]
+}
+
 func decodeWorld(op string) (*vWorld, error) {
 	toks := strings.Fields(op)
 	if len(toks) == 0 || (toks[0] != "auth" && toks[0] != "again" && toks[0] != "begin") {
@@ -451,6 +492,20 @@ func decodeWorld(op string) (*vWorld, error) {
 	w.status, _ = strconv.Atoi(kv["st"])
 	w.cimd, w.dcr, w.init, w.hm = kv["cimd"] == "1", kv["dcr"] == "1", kv["init"] == "1", kv["hm"] == "1"
 	w.nts, w.ntFail = kv["nts"] == "1", kv["nt"] == "E"
+	w.sf, w.rr = kv["sf"], kv["rr"] == "1"
+	if w.sf == "" {
+		w.sf = "n"
+	}
+	w.ps, w.as, w.ts, w.tsAbsent = []string{"mcp:read"}, nil, nil, true
+	if t, ok := kv["ps"]; ok {
+		w.ps = scList(t)
+	}
+	if t, ok := kv["as"]; ok {
+		w.as = scList(t)
+	}
+	if t, ok := kv["ts"]; ok && t != "-" {
+		w.ts, w.tsAbsent = scList(t), false
+	}
 	if !w.again && kv["pre"] != "none" {
 		p, err := vParse(kv["pre"])
 		if err != nil {
@@ -538,6 +593,7 @@ const (
 )
 
 type vRun struct {
+	sc      string // " sc=<scope set of the authorization URL>" once the fetcher was called
 	onToken func() // called before a token request is answered (the attempt may be held here)
 	w      *vWorld
 	rev    map[string]string // concrete string -> url token
@@ -701,7 +757,10 @@ func vHTTP(code int, ct, body string) *http.Response {
 func (r *vRun) pick(codes ...int) int { return codes[r.w.sty%len(codes)] }
 
 func (r *vRun) prmJSON(d *vPrmDoc) string {
-	m := map[string]any{"resource": d.resource.render(false), "scopes_supported": []string{"mcp:read"}}
+	m := map[string]any{"resource": d.resource.render(false)}
+	if len(r.w.ps) > 0 {
+		m["scopes_supported"] = r.w.ps
+	}
 	if d.as != nil {
 		l := []string{}
 		for _, a := range d.as {
@@ -732,6 +791,9 @@ func (r *vRun) asmJSON(a *vAsmDoc) string {
 	}
 	if strings.Contains(a.flags, "k") {
 		m["code_challenge_methods_supported"] = []string{"S256"}
+	}
+	if len(r.w.as) > 0 {
+		m["scopes_supported"] = r.w.as
 	}
 	if strings.Contains(a.flags, "c") {
 		m["client_id_metadata_document_supported"] = true
@@ -897,10 +959,16 @@ func (r *vRun) RoundTrip(req *http.Request) (*http.Response, error) {
 		}
 		code := l[n]
 		switch code {
-		case "G":
-			return vHTTP(200, "application/json", `{"access_token":"at-1","token_type":"Bearer"}`), nil
-		case "X":
-			return vHTTP(200, "application/json", `{"access_token":"at-1","token_type":"Bearer","expires_in":1}`), nil
+		case "G", "X":
+			m := map[string]any{"access_token": "at-1", "token_type": "Bearer"}
+			if code == "X" {
+				m["expires_in"] = 1
+			}
+			if !r.w.tsAbsent {
+				m["scope"] = strings.Join(r.w.ts, " ")
+			}
+			b, _ := json.Marshal(m)
+			return vHTTP(200, "application/json", string(b)), nil
 		case "FT":
 			return nil, vErrTransport{}
 		case "F4":
@@ -929,6 +997,7 @@ func (r *vRun) fetcher(ctx context.Context, args *AuthorizationArgs, park func(s
 	ep, q, _ := strings.Cut(args.URL, "?")
 	vals, _ := url.ParseQuery(q)
 	r.events = append(r.events, "F:"+r.classify(ep)+":"+credOf(vals.Get("client_id"))+":"+r.classify(vals.Get("resource")))
+	r.sc = " sc=" + scTok(canonScopes(strings.Fields(vals.Get("scope"))))
 	park(vals.Get("state"))
 	if r.w.fetch != "R" {
 		return nil, vFetchErr
@@ -1148,6 +1217,23 @@ func newHandler(w *vWorld) (hs *vHandler, obs string) {
 	if w.nts {
 		cfg.NewTokenSource = hs.newTokenSource
 	}
+	cfg.RequestRefreshToken = w.rr
+	switch w.sf {
+	case "d":
+		cfg.ScopeFilter = func([]string) []string { return nil }
+	case "r":
+		cfg.ScopeFilter = func(l []string) []string {
+			var out []string
+			for _, x := range l {
+				if strings.HasSuffix(x, ":read") {
+					out = append(out, x)
+				}
+			}
+			return out
+		}
+	case "x":
+		cfg.ScopeFilter = func(l []string) []string { return append(append([]string{}, l...), "extra:scope") }
+	}
 	if w.init {
 		hs.initial = vSentinelTS{}
 		cfg.InitialTokenSource = hs.initial
@@ -1165,7 +1251,7 @@ func newHandler(w *vWorld) (hs *vHandler, obs string) {
 func (hs *vHandler) begin(w *vWorld) (a *vAttempt, obs string) {
 	if w.again {
 		c := hs.cfgW
-		w.cimd, w.pre, w.dcr, w.init, w.nts = c.cimd, c.pre, c.dcr, c.init, c.nts
+		w.cimd, w.pre, w.dcr, w.init, w.nts, w.sf, w.rr = c.cimd, c.pre, c.dcr, c.init, c.nts, c.sf, c.rr
 	}
 	w.round = len(hs.att)
 	r := &vRun{w: w, upper: w.sty%5 == 1} // mixed-case schemes only in fields that are not compared as strings
@@ -1244,7 +1330,7 @@ func (hs *vHandler) observe(a *vAttempt) string {
 	if len(a.run.events) > 0 {
 		lg = strings.Join(a.run.events, ",")
 	}
-	return "out=" + classifyErr(a.err) + " inst=" + inst + " cur=" + cur + " log=" + lg
+	return "out=" + classifyErr(a.err) + " inst=" + inst + " cur=" + cur + " log=" + lg + a.run.sc
 }
 
 // answer lets the fetcher of attempt k return and holds the attempt at its first token request ("held");
@@ -1392,6 +1478,19 @@ func (g *vGen) set(name string, m map[string]vResp, k vURL, r vResp) {
 	g.w.order[name] = append(g.w.order[name], t)
 }
 
+var vScopePool = []string{"mcp:read", "mcp:write", "files:read", "files:write", "offline_access", "admin"}
+
+// scopeSet draws a subset of the pool (each member with probability pct), in pool order.
+func (g *vGen) scopeSet(pct int) []string {
+	var out []string
+	for _, x := range vScopePool {
+		if g.p(pct) {
+			out = append(out, x)
+		}
+	}
+	return out
+}
+
 func (g *vGen) failCode() string {
 	if g.rng.Intn(40) == 0 {
 		return "L" // a document larger than getJSON's 1 MiB limit
@@ -1520,7 +1619,7 @@ func (g *vGen) world() *vWorld {
 	cfgDraw := g.rng.Intn(10)
 	if g.base != nil {
 		cfgDraw = -1
-		w.cimd, w.pre, w.dcr, w.init, w.nts = g.base.cimd, g.base.pre, g.base.dcr, g.base.init, g.base.nts
+		w.cimd, w.pre, w.dcr, w.init, w.nts, w.sf, w.rr = g.base.cimd, g.base.pre, g.base.dcr, g.base.init, g.base.nts, g.base.sf, g.base.rr
 	}
 	switch cfgDraw {
 	case -1:
@@ -1542,6 +1641,8 @@ func (g *vGen) world() *vWorld {
 	if g.base == nil {
 		w.init = g.p(30)
 		w.nts = g.p(25)
+		w.sf = []string{"n", "n", "n", "n", "n", "n", "n", "d", "r", "x"}[g.rng.Intn(10)]
+		w.rr = g.p(35)
 	}
 	// the MCP server URL
 	switch {
@@ -1837,7 +1938,17 @@ func (g *vGen) renderHeader() {
 			ps = append(ps, `error="invalid_token"`)
 		}
 		if g.p(40) {
-			ps = append(ps, `scope="mcp:read mcp:write"`)
+			sc := `scope="mcp:read mcp:write"`
+			switch {
+			case g.p(35):
+				// (an empty value would make the header malformed: `no value for auth param`)
+				if set := g.scopeSet(35); len(set) > 0 {
+					sc = `scope="` + strings.Join(set, []string{" ", "  ", "\t"}[g.rng.Intn(3)]) + `"`
+				}
+			case g.p(10):
+				sc = `scope=files:write`
+			}
+			ps = append(ps, sc)
 		}
 		g.rng.Shuffle(len(ps), func(a, b int) { ps[a], ps[b] = ps[b], ps[a] })
 		sep := []string{", ", ",", " , "}[g.rng.Intn(3)]
@@ -2160,6 +2271,24 @@ func flowTags(w *vWorld, obs string) []string {
 	if w.init {
 		tags = append(tags, "initial-ts")
 	}
+	if _, sc, ok := strings.Cut(obs, " sc="); ok {
+		tags = append(tags, "scope-filter="+w.sf)
+		switch {
+		case sc == ".":
+			tags = append(tags, "scopes-none")
+		case strings.Contains(sc, "offline_access"):
+			tags = append(tags, "scopes-offline-access")
+		}
+		if strings.Contains(sc, "extra:scope") {
+			tags = append(tags, "scopes-added-by-filter")
+		}
+		if w.afterOK {
+			tags = append(tags, "scopes-after-a-grant")
+		}
+		if !w.tsAbsent && strings.Contains(obs, "out=ok") {
+			tags = append(tags, "granted-scopes-from-token-response")
+		}
+	}
 	if w.nts {
 		tags = append(tags, "custom-token-source")
 		if w.ntFail && strings.Contains(obs, "T:") {
@@ -2402,6 +2531,16 @@ func TestVerifOAuthFlow(t *testing.T) {
 			w := g.world()
 			w.again = k > 0
 			w.ntFail = w.nts && g.hp(30, 12)
+			w.ps, w.as, w.ts, w.tsAbsent = []string{"mcp:read"}, nil, nil, true
+			if g.p(40) {
+				w.ps = g.scopeSet(35)
+			}
+			if g.p(60) {
+				w.as = g.scopeSet(40)
+			}
+			if g.p(40) {
+				w.ts, w.tsAbsent = g.scopeSet(40), false
+			}
 			w.begin = conc > 0 && k >= rounds-conc
 			if k == 0 {
 				g.base = w
